@@ -13,14 +13,15 @@ size_t __sanitizer_get_allocated_size(const volatile void *p);
 }
 
 #include <cstring>
+#include <functional>
 
 using namespace pbt;
 using namespace dec;
 
 namespace {
 
-decoder_t *gDec[5] = {nullptr, nullptr, nullptr, nullptr, nullptr};
-int gFrate[5] = {100, 100, 100, 50, 125};
+decoder_t *gDec[6] = {nullptr, nullptr, nullptr, nullptr, nullptr, nullptr}; // [5]: cmn=batch
+int gFrate[6] = {100, 100, 100, 50, 125, 100};
 bool c_probeKnown = false; // set per case: assert listed known classes on a small fraction of cases
 
 struct Case {
@@ -78,6 +79,120 @@ std::string caseDesc(const Case &k) {
   o << "dec=" << DN[k.decIdx] << (k.jsonLevel || k.jsonStart != 0 ? " json(level=" + std::to_string(k.jsonLevel) + ",start=" + fmt3(k.jsonStart) + ")" : "") << " " << k.sc.str() << " | " << k.gram.desc << " | N=" << k.audio.size() << " "
     << k.audioDesc << (k.fullUtt ? " full_utt" : "") << " chunks=" << chunksStr(k.chunks);
   return o.str();
+}
+
+
+// ----------------------------------------------------- isolation inside a case
+// Runs fn in a forked copy of this (pristine) process image and returns the
+// string it produced; used by the differential properties so that both sides
+// start from the same decoder state.  A crash of the copy ends this case too
+// (its sanitizer report is already in our stderr file).
+#include <sys/wait.h>
+std::string runIsolated(const std::function<std::string()> &fn) {
+  int pfd[2];
+  if (pipe(pfd) != 0) _exit(98);
+  fflush(stderr);
+  pid_t pid = fork();
+  if (pid == 0) {
+    close(pfd[0]);
+    std::string r = fn();
+    size_t off = 0;
+    while (off < r.size()) {
+      ssize_t w = write(pfd[1], r.data() + off, r.size() - off);
+      if (w <= 0) break;
+      off += (size_t)w;
+    }
+    close(pfd[1]);
+    _exit(0);
+  }
+  close(pfd[1]);
+  std::string out;
+  char buf[65536];
+  ssize_t n;
+  while ((n = read(pfd[0], buf, sizeof buf)) > 0) out.append(buf, (size_t)n);
+  close(pfd[0]);
+  int status = 0;
+  waitpid(pid, &status, 0);
+  if (!(WIFEXITED(status) && WEXITSTATUS(status) == 0)) _exit(97); // died: let the engine classify our stderr
+  return out;
+}
+
+std::string alignmentDump(decoder_t *d) {
+  alignment_t *al = decoder_alignment(d);
+  if (!al) return "alignment=NULL";
+  std::ostringstream o;
+  o << "alignment=";
+  for (alignment_iter_t *it = alignment_words(al); it; it = alignment_iter_next(it)) {
+    int st = 0, du = 0;
+    int sc = alignment_iter_seg(it, &st, &du);
+    o << "{" << alignment_iter_name(it) << " " << st << "+" << du << " " << sc << ":";
+    for (alignment_iter_t *p = alignment_iter_children(it); p; p = alignment_iter_next(p)) {
+      sc = alignment_iter_seg(p, &st, &du);
+      o << "(" << alignment_iter_name(p) << " " << st << "+" << du << " " << sc << ":";
+      for (alignment_iter_t *q = alignment_iter_children(p); q; q = alignment_iter_next(q)) {
+        sc = alignment_iter_seg(q, &st, &du);
+        o << "[" << alignment_iter_name(q) << " " << st << "+" << du << " " << sc << "]";
+      }
+      o << ")";
+    }
+    o << "}";
+  }
+  return o.str();
+}
+
+// one utterance, returns the canonical record of the final result
+struct UttPlan {
+  std::vector<Chunk> chunks;
+  bool useFloat = false;
+  bool fullUtt = false;
+  int queryMask = 0; // which partial queries are made at query points
+};
+
+std::string runUtterance(decoder_t *d, const std::vector<int16_t> &audio, const UttPlan &p, bool withAlignment, Ctx *ctx) {
+  fsg_search_t *fs = (fsg_search_t *)d->search;
+  std::ostringstream rec;
+  if (decoder_start_utt(d) != 0) return "start_utt failed";
+  size_t pos = 0;
+  long returned = 0;
+  for (auto &ch : p.chunks) {
+    int r;
+    if (p.useFloat) {
+      float *blk = (float *)malloc(ch.len ? ch.len * sizeof(float) : 1);
+      for (size_t i = 0; i < ch.len; ++i) blk[i] = (float)audio[pos + i] / 32768.0f;
+      r = decoder_process_float32(d, blk, ch.len, ch.noSearch, p.fullUtt);
+      free(blk);
+    } else {
+      int16_t *blk = (int16_t *)malloc(ch.len ? ch.len * 2 : 1);
+      if (ch.len) memcpy(blk, audio.data() + pos, ch.len * 2);
+      r = decoder_process_int16(d, blk, ch.len, ch.noSearch, p.fullUtt);
+      free(blk);
+    }
+    pos += ch.len;
+    if (r < 0) return "process returned " + std::to_string(r);
+    returned += r;
+    if (ch.queryAfter) {
+      if (ctx) ctx->label("variant:partial-queries");
+      if (p.queryMask & 1) observe(d);
+      if (p.queryMask & 2) {
+        lattice_t *dag = decoder_lattice(d);
+        if (dag && (p.queryMask & 4)) {
+          hyp_iter_t *it = decoder_nbest(d);
+          for (int k = 0; it && k < 3; ++k) it = hyp_iter_next(it);
+          if (it) hyp_iter_free(it);
+        }
+      }
+      if (p.queryMask & 8) decoder_result_json(d, 0.0, (p.queryMask >> 5) % 3);
+      if (p.queryMask & 16) {
+        if (ctx) ctx->label("variant:partial-alignment(rewind)");
+        decoder_alignment(d);
+      }
+    }
+  }
+  if (decoder_end_utt(d) != 0) return "end_utt failed";
+  Obs o = observe(d);
+  rec << o.str() << " frames_searched=" << fs->frame;
+  if (withAlignment) rec << " " << alignmentDump(d);
+  return rec.str();
 }
 
 // ------------------------------------------------------------------ oracles
@@ -711,6 +826,258 @@ Verdict runCase(Choices &c, Ctx &ctx, Which which) {
   return Verdict::pass();
 }
 
+
+// ------------------------------------------------------- C07: chunk invariance
+Verdict propC07(Choices &c, Ctx &ctx) {
+  int decIdx = c.coin(35) ? 1 : 0;
+  SearchCfg sc = genSearchCfg(c);
+  Gram gram = genGrammar(c);
+  long N;
+  switch (c.weighted({1, 2, 5, 8})) {
+  case 0: N = c.range(1, 800); break;
+  case 1: N = c.range(800, 8000); break;
+  case 2: N = c.range(8000, 24000); break;
+  default: N = c.range(24000, 46000); break; // < 300 frames: live CMN cannot shift inside the utterance
+  }
+  if (sc.beam == 0 && gram.text.size() > 220 && N > 12000) N = 12000;
+  std::string adesc;
+  std::vector<int16_t> audio = audio::recipe(c, (size_t)N, adesc, true, 14);
+  // channel normalisation state fixed at the start of the utterance
+  std::string cmn;
+  switch (c.weighted({4, 3, 1})) {
+  case 0: cmn = "40,3,-1"; break;
+  case 1: {
+    std::ostringstream o;
+    o << (double)c.range(200, 600) / 10.0 << "," << (double)c.range(-100, 100) / 10.0 << "," << (double)c.range(-50, 50) / 10.0 << "," << (double)c.range(-30, 30) / 10.0;
+    cmn = o.str();
+    break;
+  }
+  default: cmn = "0"; break;
+  }
+  UttPlan ref, var;
+  ref.chunks = {{(size_t)N, false, false}};
+  var.chunks = genChunks(c, (size_t)N, true, 25);
+  // bias: make the first chunk shorter than one analysis window now and then
+  if (c.coin(25) && !var.chunks.empty() && var.chunks[0].len > 409) {
+    size_t first = (size_t)c.range(1, 409);
+    Chunk rest = var.chunks[0];
+    rest.len -= first;
+    var.chunks[0].len = first;
+    var.chunks.insert(var.chunks.begin() + 1, rest);
+  }
+  var.useFloat = c.coin(30);
+  var.queryMask = (int)c.range(0, 255);
+  bool withAlign = c.coin(60);
+  std::ostringstream d;
+  d << "dec=" << (decIdx ? "compallsen" : "default") << " " << sc.str() << " cmn=" << cmn << " | " << gram.desc << " | N=" << N << " " << adesc << " | variant: " << (var.useFloat ? "float32 " : "int16 ") << "chunks=" << chunksStr(var.chunks) << " queries=" << var.queryMask << (withAlign ? " +alignment" : "");
+  ctx.describe(d.str());
+  decoder_t *dd = gDec[decIdx];
+  applySearchCfg(dd, sc);
+  int rc = install(dd, gram);
+  PBT_CHECK(rc == 0, "install-refused", "valid grammar refused: " << gram.desc);
+  auto one = [&](const UttPlan &p, Ctx *cx) {
+    if (decoder_set_cmn(dd, cmn.c_str()) != 0) return std::string("set_cmn failed");
+    return runUtterance(dd, audio, p, withAlign, cx);
+  };
+  std::string a = runIsolated([&]() { return one(ref, nullptr); });
+  std::string b = one(var, &ctx);
+  bool firstShort = !var.chunks.empty() && var.chunks[0].len < 410;
+  bool sawNoSearchThenSearch = false;
+  for (size_t i = 0; i + 1 < var.chunks.size(); ++i)
+    if (var.chunks[i].noSearch && !var.chunks[i + 1].noSearch) sawNoSearchThenSearch = true;
+  ctx.labelIf(firstShort, "variant:first-chunk<window");
+  ctx.labelIf(sawNoSearchThenSearch, "variant:no_search-then-search");
+  ctx.labelIf(var.useFloat, "variant:float32");
+  ctx.labelIf(N > 128 * 160, "audio>128-frames(ring-wrap)");
+  ctx.labelIf(a.find("hyp=NULL") != std::string::npos, "reference:no-hypothesis");
+  if (a != b) {
+    std::string key = "result-depends-on-chunking";
+    if (firstShort) key += ":first-chunk-shorter-than-window";
+    return Verdict::fail(key, "one call : " + a + "\nvariant  : " + b);
+  }
+  ctx.nontrivial = var.chunks.size() >= 3 && a.find("hyp=NULL") == std::string::npos;
+  return Verdict::pass();
+}
+
+
+// ------------------------------------------------ C08: isolation / determinism
+struct UttSpec {
+  Gram gram;
+  std::vector<int16_t> audio;
+  std::string adesc;
+  UttPlan plan;
+  std::string cmn; // "" = no reset
+};
+
+UttSpec genUtt(Choices &c, bool target) {
+  UttSpec u;
+  u.gram = genGrammar(c);
+  long N;
+  switch (c.weighted({target ? 0 : 2, 2, 5, 5})) {
+  case 0: N = 0; break;
+  case 1: N = c.range(1, 3000); break;
+  case 2: N = c.range(3000, 16000); break;
+  default: N = c.range(16000, 40000); break;
+  }
+  u.audio = audio::recipe(c, (size_t)N, u.adesc, true, target ? 16 : 8);
+  size_t mode = c.weighted({5, 2, 2}); // streaming | buffered (no_search) | full_utt
+  if (mode == 2) {
+    u.plan.fullUtt = true;
+    u.plan.chunks = {{(size_t)N, false, false}};
+  } else {
+    u.plan.chunks = genChunks(c, (size_t)N, false, target ? 0 : 30);
+    if (mode == 1)
+      for (size_t i = 0; i + 1 < u.plan.chunks.size(); ++i) u.plan.chunks[i].noSearch = true;
+  }
+  u.plan.useFloat = c.coin(20);
+  u.plan.queryMask = target ? 0 : (int)c.range(0, 255);
+  return u;
+}
+
+std::string uttStr(const UttSpec &u) {
+  std::ostringstream o;
+  o << "{" << u.gram.desc << " | N=" << u.audio.size() << " " << u.adesc << (u.plan.fullUtt ? " full_utt" : "") << (u.plan.useFloat ? " float32" : "") << " chunks=" << chunksStr(u.plan.chunks) << " queries=" << u.plan.queryMask << (u.cmn.empty() ? "" : " set_cmn=" + u.cmn) << "}";
+  return o.str();
+}
+
+std::string runSpec(decoder_t *d, const UttSpec &u, bool withAlign, Ctx *ctx) {
+  if (install(d, u.gram) != 0) return "install refused";
+  if (!u.cmn.empty() && decoder_set_cmn(d, u.cmn.c_str()) != 0) return "set_cmn failed";
+  std::string r = runUtterance(d, u.audio, u.plan, withAlign, ctx);
+  lattice_t *dag = decoder_lattice(d);
+  if (dag) {
+    lat::Lat L = lat::read(dag);
+    r += " lattice=" + std::to_string(L.nodes.size()) + "n/" + std::to_string(L.links.size()) + "l";
+  } else
+    r += " lattice=NULL";
+  return r;
+}
+
+Verdict propC08(Choices &c, Ctx &ctx) {
+  size_t family = c.weighted({7, 3});
+  SearchCfg sc = genSearchCfg(c);
+  bool withAlign = c.coin(40);
+  if (family == 0) {
+    // history then target on one decoder vs target on a fresh decoder
+    int decIdx = (int)c.weighted({5, 2, 0, 0, 0, 4});
+    // every bundled model's feat_params.json says cmn=current (batch), which overrides the
+    // configuration: all decoders of this harness are batch-CMN decoders
+    bool batch = true;
+    int nh = (int)c.range(1, 4);
+    std::vector<UttSpec> H;
+    for (int i = 0; i < nh; ++i) {
+      UttSpec u = genUtt(c, false);
+      if (i > 0 && c.coin(25)) u.gram = H[(size_t)c.range(0, i - 1)].gram; // switch back to an earlier grammar
+      if (c.coin(20)) u.cmn = "40,3,-1";
+      H.push_back(u);
+    }
+    UttSpec U = genUtt(c, true);
+    if (c.coin(30)) U.gram = H[0].gram;
+    // reset of the one deliberate carry-over; in full-utterance batch mode no reset is needed
+    bool needReset = !(batch && U.plan.fullUtt);
+    if (needReset) U.cmn = c.coin(70) ? "40,3,-1" : "35.5,2,-0.5,1";
+    std::ostringstream d;
+    d << "history dec=" << (decIdx == 0 ? "default" : decIdx == 1 ? "compallsen" : "cmn=batch") << " " << sc.str() << (withAlign ? " +alignment" : "") << " H=";
+    for (auto &u : H) d << uttStr(u) << " ";
+    d << "U=" << uttStr(U);
+    ctx.describe(d.str());
+    decoder_t *dd = gDec[decIdx];
+    applySearchCfg(dd, sc);
+    std::string fresh = runIsolated([&]() { return runSpec(dd, U, withAlign, nullptr); });
+    bool failedInH = false, differs = false;
+    for (auto &u : H) {
+      std::string r = runSpec(dd, u, c.coin(30), &ctx);
+      if (r.find("hyp=NULL") != std::string::npos) failedInH = true;
+      if (u.audio != U.audio || u.gram.text != U.gram.text) differs = true;
+    }
+    std::string after = runSpec(dd, U, withAlign, nullptr);
+    ctx.labelIf(failedInH, "history:utterance-without-hypothesis");
+    ctx.labelIf(batch, "config:cmn=batch");
+    ctx.labelIf(batch && U.plan.fullUtt, "target:full_utt-batch(no-reset)");
+    ctx.labelIf(U.plan.fullUtt, "target:full_utt");
+    bool streamBefore = false;
+    for (auto &u : H) streamBefore = streamBefore || !u.plan.fullUtt;
+    ctx.labelIf(streamBefore && U.plan.fullUtt, "history:streaming-before-full_utt");
+    if (fresh != after) {
+      std::string key = "result-depends-on-history";
+      if (batch && U.plan.fullUtt && streamBefore) key += ":batch-cmn-after-streaming";
+      return Verdict::fail(key, "fresh decoder : " + fresh + "\nafter history : " + after);
+    }
+    // determinism: the same utterance once more
+    std::string again = runSpec(dd, U, withAlign, nullptr);
+    PBT_CHECK(again == after, "result-not-deterministic", "first  : " << after << "\nsecond : " << again);
+    // cmn text is a fixpoint of export/import
+    {
+      std::string g1 = decoder_get_cmn(dd, 0);
+      decoder_set_cmn(dd, g1.c_str());
+      std::string g2 = decoder_get_cmn(dd, 0);
+      PBT_CHECK(g1 == g2, "cmn-text-not-fixpoint", "get_cmn='" << g1 << "' but after set_cmn(get_cmn()) it reads '" << g2 << "'");
+    }
+    ctx.nontrivial = nh >= 2 && differs && after.find("hyp=NULL") == std::string::npos;
+    return Verdict::pass();
+  }
+  // two decoders alive in one process, operations interleaved
+  int ia = (int)c.weighted({3, 2}), ib = (int)c.weighted({2, 3, 0, 0, 0, 2});
+  if (ib == ia) ib = ia == 0 ? 1 : 0;
+  UttSpec A = genUtt(c, true), B = genUtt(c, true);
+  A.cmn = "40,3,-1";
+  B.cmn = "40,3,-1";
+  A.plan.fullUtt = B.plan.fullUtt = false;
+  if (A.plan.chunks.size() == 1 && A.audio.size() > 4000) A.plan.chunks = {{2000, false, false}, {A.audio.size() - 2000, false, false}};
+  if (B.plan.chunks.size() == 1 && B.audio.size() > 4000) B.plan.chunks = {{3000, false, false}, {B.audio.size() - 3000, false, false}};
+  std::ostringstream d;
+  d << "two-decoders A(dec" << ia << ")=" << uttStr(A) << " B(dec" << ib << ")=" << uttStr(B) << " " << sc.str();
+  ctx.describe(d.str());
+  decoder_t *da = gDec[ia], *db = gDec[ib];
+  applySearchCfg(da, sc);
+  applySearchCfg(db, sc);
+  std::string soloA = runIsolated([&]() { return runSpec(da, A, false, nullptr); });
+  std::string soloB = runIsolated([&]() { return runSpec(db, B, false, nullptr); });
+  // interleaved, chunk by chunk
+  PBT_CHECK(install(da, A.gram) == 0 && install(db, B.gram) == 0, "install-refused", "valid grammar refused");
+  decoder_set_cmn(da, A.cmn.c_str());
+  decoder_set_cmn(db, B.cmn.c_str());
+  PBT_CHECK(decoder_start_utt(da) == 0 && decoder_start_utt(db) == 0, "start-utt-failed", "start_utt failed with two decoders");
+  size_t pa = 0, pb = 0, ca = 0, cb = 0;
+  while (ca < A.plan.chunks.size() || cb < B.plan.chunks.size()) {
+    bool takeA = cb >= B.plan.chunks.size() || (ca < A.plan.chunks.size() && c.coin(50));
+    decoder_t *dx = takeA ? da : db;
+    UttSpec &X = takeA ? A : B;
+    size_t &px = takeA ? pa : pb;
+    size_t &cx = takeA ? ca : cb;
+    Chunk ch = X.plan.chunks[cx++];
+    int16_t *blk = (int16_t *)malloc(ch.len ? ch.len * 2 : 1);
+    if (ch.len) memcpy(blk, X.audio.data() + px, ch.len * 2);
+    int r = decoder_process_int16(dx, blk, ch.len, ch.noSearch, 0);
+    free(blk);
+    px += ch.len;
+    PBT_CHECK(r >= 0, "process-error", "process returned " << r);
+    if (c.coin(20)) observe(takeA ? db : da);
+  }
+  auto finish = [&](decoder_t *dx) {
+    decoder_end_utt(dx);
+    Obs o = observe(dx);
+    std::string r = o.str() + " frames_searched=" + std::to_string(((fsg_search_t *)dx->search)->frame);
+    lattice_t *dag = decoder_lattice(dx);
+    if (dag) {
+      lat::Lat L = lat::read(dag);
+      r += " lattice=" + std::to_string(L.nodes.size()) + "n/" + std::to_string(L.links.size()) + "l";
+    } else
+      r += " lattice=NULL";
+    return r;
+  };
+  bool aFirst = c.coin(50);
+  std::string ra, rb;
+  if (aFirst) ra = finish(da), rb = finish(db);
+  else rb = finish(db), ra = finish(da);
+  // the solo plans may have used float32 / queries; the interleaved run uses int16: compare only when comparable
+  if (!A.plan.useFloat) PBT_CHECK(ra == soloA, "decoders-interfere", "decoder A alone : " << soloA << "\ninterleaved     : " << ra);
+  if (!B.plan.useFloat) PBT_CHECK(rb == soloB, "decoders-interfere", "decoder B alone : " << soloB << "\ninterleaved     : " << rb);
+  ctx.label("family:two-decoders");
+  ctx.nontrivial = ra.find("hyp=NULL") == std::string::npos || rb.find("hyp=NULL") == std::string::npos;
+  return Verdict::pass();
+}
+
 Verdict propC01(Choices &c, Ctx &ctx) { return runCase(c, ctx, W_C01); }
 Verdict propC03(Choices &c, Ctx &ctx) { return runCase(c, ctx, W_C03); }
 Verdict propC11(Choices &c, Ctx &ctx) { return runCase(c, ctx, W_C11); }
@@ -731,7 +1098,10 @@ void initDecode() {
   gDec[3] = makeDecoder(h);
   h.frate = 125;
   gDec[4] = makeDecoder(h);
-  if (!gDec[0] || !gDec[1] || !gDec[2] || !gDec[3] || !gDec[4]) {
+  DecCfg bt;
+  bt.cmn = "batch";
+  gDec[5] = makeDecoder(bt);
+  if (!gDec[0] || !gDec[1] || !gDec[2] || !gDec[3] || !gDec[4] || !gDec[5]) {
     fprintf(stderr, "decoder_init failed in harness init\n");
     exit(2);
   }
@@ -748,6 +1118,8 @@ const PropDef kProps[] = {
     {"C11", propC11, true, 20000, initDecode},
     {"C12", propC12, true, 20000, initDecode},
     {"C14", propC14, true, 30000, initDecode},
+    {"C07", propC07, true, 60000, initDecode},
+    {"C08", propC08, true, 90000, initDecode},
     {nullptr, nullptr, false, 0, nullptr},
 };
 }
